@@ -28,4 +28,4 @@ require (
 	google.golang.org/protobuf v1.36.5 // indirect
 )
 
-replace github.com/transparency-dev/witness => /tmp/wt/mut
+replace github.com/transparency-dev/witness => /repo
